@@ -6,9 +6,11 @@ package main
 // n in [-3, count+3] plus int32 boundaries; set functions on pairs with controlled overlap.
 
 import (
+	"errors"
 	"fmt"
 	"strings"
 
+	dtpb "github.com/google/fhir/go/proto/google/fhir/proto/r4/core/datatypes_go_proto"
 	"github.com/verily-src/fhirpath-go/fhirpath"
 	"github.com/verily-src/fhirpath-go/fhirpath/evalopts"
 	"github.com/verily-src/fhirpath-go/fhirpath/internal/expr"
@@ -121,6 +123,14 @@ func runC10(c *Ctx) {
 			colls = append(colls, coll{"hand-made " + p, o.Coll, []fhir.Resource{hand}})
 		}
 	}
+	// mixed-type collections: bundled resources of different types, some without the element asked for
+	mixed := mustResource(`{"resourceType":"Bundle","type":"collection","entry":[{"resource":{"resourceType":"Patient","id":"a"}},{"resource":{"resourceType":"Observation","id":"o","status":"final","code":{"text":"c"}}},
+	  {"resource":{"resourceType":"Patient","id":"b","active":true}},{"resource":{"resourceType":"Encounter","id":"e","status":"planned","class":{"code":"x"}}}]}`)
+	for _, p := range []string{"Bundle.entry.resource", "Bundle.entry.resource.take(2)", "Bundle.entry.resource.skip(1).take(2)", "Bundle.entry.resource.skip(2)", "Bundle.entry.resource | Bundle.entry"} {
+		if o := compileEval(p, []fhir.Resource{mixed}); o.Err == nil && !o.Panicked {
+			colls = append(colls, coll{"mixed bundle " + p, o.Coll, []fhir.Resource{mixed}})
+		}
+	}
 	pat := mustResource(`{"resourceType":"Patient","id":"p"}`)
 	hn := func(f string) any { return mustElementHumanName(f) }
 	a1 := hn("A")
@@ -136,11 +146,15 @@ func runC10(c *Ctx) {
 		{hn("A"), hn("A"), hn("B"), hn("A")},
 		{},
 		{system.Integer(7)},
+		// the same value as a FHIR element first and as a System value later, and the other way round
+		{fhir.String("a"), system.String("a"), &dtpb.Code{Value: "a"}, system.String("b"), &dtpb.Uri{Value: "b"}, system.String("a")},
+		{fhir.Integer(1), system.Integer(1), fhir.Boolean(true), system.Boolean(true), mustElementDecimal("1.0"), system.Decimal(mustDec("1.0"))},
+		{&dtpb.Id{Value: "x"}, system.String("x"), system.String("y"), &dtpb.Markdown{Value: "y"}},
 	}
 	for i, e := range envs {
 		colls = append(colls, coll{fmt.Sprintf("%%e%d", i), e, []fhir.Resource{pat}})
 	}
-	crits := []string{"true", "false", "{}", "$this.exists()", "family.exists()", "use = 'official'", "given", "$this is HumanName", "1", "$this = 1", "system.exists()", "(true | false)", "preferred", "active", "preferred.not()", "$this", "given.startsWith('A')", "url"}
+	crits := []string{"birthDate", "status", "id", "active.exists()", "true", "false", "{}", "$this.exists()", "family.exists()", "use = 'official'", "given", "$this is HumanName", "1", "$this = 1", "system.exists()", "(true | false)", "preferred", "active", "preferred.not()", "$this", "given.startsWith('A')", "url"}
 	type compiled struct {
 		src string
 		e   expr.Expression
@@ -198,6 +212,9 @@ func runC10(c *Ctx) {
 				})
 				if o.Err != nil || o.Panicked {
 					outs[i], lens[i] = "E", "E"
+					if !o.Panicked && errors.Is(o.Err, expr.ErrInvalidField) {
+						lens[i] = "F"
+					}
 					simple = false
 				} else {
 					outs[i] = boolAbs(o.Coll)
@@ -222,6 +239,34 @@ func runC10(c *Ctx) {
 					so = fmt.Sprintf("ok:%d", len(se.Coll))
 				}
 				c.Emit("select "+ltok, so, n > 0)
+			} else if n > 0 {
+				// mixed collections: an element name that some items do not have contributes nothing for
+				// those items; it is an error only when no item has it
+				other, field, sum := false, 0, 0
+				for _, l := range lens {
+					switch l {
+					case "E":
+						other = true
+					case "F":
+						field++
+					default:
+						k := 0
+						fmt.Sscan(l, &k)
+						sum += k
+					}
+				}
+				if !other {
+					want := fmt.Sprintf("ok:%d", sum)
+					if field == n {
+						want = "err"
+					}
+					so := "err"
+					if se.Err == nil && !se.Panicked {
+						so = fmt.Sprintf("ok:%d", len(se.Coll))
+					}
+					c.Law(so == want, "C10/select-spec", "select() concatenates the projections of the items; an element that only some items of a mixed collection lack contributes nothing for them", fmt.Sprintf("%s .select(%s) with per-item results %s", cl.desc, cr.src, ltok), so+" want "+want)
+					c.Count("select-mixed")
+				}
 			}
 			c.Count("crit:" + cr.src)
 			// direct laws on the per-item criterion values (t / f / - single items only)
